@@ -7,7 +7,12 @@ and return a call-numbered token, sub-templates print what they see; probes by n
 entity, with missing=, by expression (`seen(n)` reports the identity of what it was given)
 are rendered before / inside / after every block.  Part R makes the nest a template that invokes
 itself over a tree of objects (every node binds other values in the same block tags): the
-groups after an inner activation must show the outer activation's bindings again.
+groups after an inner activation must show the outer activation's bindings again.  Part N renders
+configurations of all parts again with the names spelled differently in front of the engine (template
+source, keyword arguments, mapping keys, client attributes, defaults, template variables: capitalised,
+upper case, mixed case with digits / underscores, long, all names of a case being case variants of ONE
+word) and with the tags in the old <!--#x--> syntax or with the name given as name= attribute; the model
+keeps its own canonical names, so the expectation is the same text.
 Oracle: vlib.c02_util.Model, an interpreter over an ordered list of scopes written from the
 documented priority list and the tag docstrings; output and call trace must both agree.
 """
@@ -29,7 +34,8 @@ RULE = ('part A: exhaustive over the 127 non-empty subsets of the seven concrete
         'sources x template-variable mode none/bystander/before/between, plus seeded histories of 3-8 '
         'calls with var() in between), every call compared with the model and _vars / defaults / the '
         "caller's mapping / client objects checked unchanged; part B: every nesting of {in, in mapping, "
-        'with, with only, with mapping, let name, let expr, if, if-else (false), elif, unless, '
+        'in prefix=, with, with only, with mapping, let name, let expr, if, if-else (false), elif, elif by '
+        'name after a first condition that is an expression, unless, '
         'try-except} to depth 2 (quick) / 3 (thorough) x bound value kind x the source delivering the '
         'base namespace, with a probe group before / inside / after every block and sub-template calls '
         'at every probe point, each nest also left through an exception (a raising callable or a raising '
@@ -46,9 +52,21 @@ RULE = ('part A: exhaustive over the 127 non-empty subsets of the seven concrete
         'the self-invoking template with / without construction defaults and variables of its own, '
         'invoked from a wrapper template or called by the application itself (namespace delivered by '
         'call keywords / client / mapping), rendered once or twice on the same objects, plus seeded nests (depth 1-3) over '
-        'seeded trees (2-7 nodes, pruned to a logical size cap) rendered 1-3 times. distinct = '
+        'seeded trees (2-7 nodes, pruned to a logical size cap) rendered 1-3 times; block kind inpfx = '
+        '<dtml-in seq prefix=p> with the aliases p_item / p_index probed at every point; part N (names are '
+        'just names): an injective spelling map between the generator\'s canonical names and what the '
+        'engine sees (template source incl. sub-templates, let targets and sources, in prefix=, call '
+        'keywords, call / construction mapping keys, client and item attributes, construction defaults, '
+        'template variables) in 7 styles {lower, Capital, UPPER, mIxEd_5xM, lower_0_v5, 80-character, twins '
+        '= every name of the case a case variant of the one word "identifier"} x 3 tag syntaxes {<dtml-x n>, '
+        '<!--#x n-->, <dtml-x name=n> / name="n"}: every source subset of part A x every other style x 2 of 5 '
+        'kind patterns (thorough: all), every 8th systematic history, every block kind at depth 1 x value '
+        'kind x style with and without exception modes, every pair of kinds under 3 rotating styles '
+        '(thorough: all styles x value kinds; every triple once), every kind / pair of kinds re-entered '
+        '(part R) under every / a rotating style; the seeded cases of all parts draw style and syntax '
+        '(lower-case in 40 %, <dtml-> syntax in 70 %). distinct = '
         'distinct (subset, kinds, variant), history, (nest, value kind, base source, exception mode) or '
-        '(nest, value kind, base source, tree, driver, route, exception, renders, top, own) tuples; a part-A case is non-trivial when at least two sources define the name or the winner is '
+        '(nest, value kind, base source, tree, driver, route, exception, renders, top, own) tuples, each x (spelling, tag syntax); a part-A case is non-trivial when at least two sources define the name or the winner is '
         'callable / template / falsy')
 ASSUMPTIONS = [
     'one lookup by name calls the resolved callable exactly once (call trace compared exactly)',
@@ -64,6 +82,16 @@ ASSUMPTIONS = [
     'subject, so no activation depends on a name leaking from its caller; names the caller\'s blocks '
     'bound ARE visible to the invoked template (caller\'s current namespace) and the model says so',
     'part R: recursion depth stays at most 4 activations (far below the engine\'s limit of 200 levels)',
+    'part N: a legal name is an ASCII letter followed by ASCII letters, digits and underscores (what the '
+    'engine itself calls a simple name in its "prefix is not a simple name" error, and what an expression '
+    'can spell); names are case-sensitive (the engine\'s own names REQUEST, URL1, sequence-item ... only '
+    'make sense if they are); non-ASCII names, names with "-" or "." are not generated',
+    'part N: names the engine defines (sequence-*, error_*) and the probe helper `seen` keep their spelling',
+    '<dtml-in seq prefix=p> binds p_item / p_index / p_number next to sequence-item / -index / -number for '
+    'the body only (DT_InSV test__setitem__getitem__ documents the alias; same reading as C08 / C10)',
+    'a bare name in a tag is the documented shorthand of the name= attribute (DT_Util name_param: "name '
+    'shorthand"), so <dtml-var name=n> / <dtml-if name="n"> resolve, call and cache like <dtml-var n> / '
+    '<dtml-if n>; only the attribute NAME is case-insensitive, never its value',
 ]
 SHARD_TIMEOUT = {'quick': 600, 'thorough': 3000}
 NSHARDS = {'quick': 16, 'thorough': 32}
@@ -73,11 +101,11 @@ SOURCES = ['kw', 'vars', 'client_last', 'client_first', 'mapping', 'ctor_kw', 'c
 KINDS3 = ['plain', 'call', 'tmpl']
 FALSY = ['zero', 'empty', 'none', 'fcall', 'fret']
 NEST_KINDS = ['in', 'inmap', 'inpfx', 'with', 'only', 'withmap', 'let', 'letx', 'if', 'ifelse', 'elif',
-              'unless', 'try']
+              'xelif', 'unless', 'try']
 LOOPS = ('in', 'inmap', 'inpfx')
 STYLES = U.STYLES                 # spellings of the names; 0 = the generator's own lower-case names
 SYNTAXES = U.SYNTAXES
-IFLIKE = ('if', 'ifelse', 'elif', 'unless')
+IFLIKE = ('if', 'ifelse', 'elif', 'xelif', 'unless')
 DESIGN_KINDS = ['in', 'with', 'only', 'withmap', 'let', 'if', 'try']
 BASE_SOURCES = ['kw', 'vars', 'client', 'mapping', 'ctor_kw', 'ctor_map']
 
@@ -128,6 +156,13 @@ def ast_a(cls):
     ast += [T('J'), U.If('n', [T('T'), P('name', 'n')], [T('E'), P('name', 'n')],
                          elifs=[('q', [T('G'), P('name', 'n'), P('name', 'q')])]),
             T('U'), U.Unless('n', [P('name', 'n')])]
+    # ... whatever kind of condition (name or expression) the other sections of the block use
+    seen_n = [P('expr', 'n')] if cls == 'H' else []
+    ast += [T('K'), U.If(U.Lit(0), [T('never')], [T('E'), P('name', 'n')],
+                         elifs=[('n', [T('G'), P('name', 'n')] + seen_n + [P('entity', 'n')])]),
+            T('k'), U.If('n', [T('T'), P('name', 'n')], [T('E'), P('name', 'n'), P('name', 'q')],
+                         elifs=[(U.Lit(0), [T('never')]), ('q', [T('G'), P('name', 'n'), P('name', 'q')]),
+                                (U.Lit(1), [T('never')])])]
     ast += [T('Q'), P('name', 'q'), T('Z'), P('miss', 'zz')]
     return ast
 
@@ -330,7 +365,7 @@ def run_a(ctx, mask, kinds, pad, variant, cls, tag='grid', sp=0, syntax='html'):
         ctx.count('A:source-unchanged checks')
         if problems:
             ctx.violation('%s call: %s' % (label, '; '.join(problems)), dict(case, step=label),
-                          key='A_%d_%s_%s' % (mask, '-'.join(kinds), cls),
+                          key='A_%d_%s_%s' % (mask, '-'.join(kinds), cls) + key_suffix(sp, syntax),
                           detail={'source': sess.src, 'expected': U.segments_text(exp),
                                   'observed': short(out, 1500) if out is not None else None,
                                   'expected_calls': sess.model.trace,
@@ -379,7 +414,7 @@ def run_h(ctx, hist):
         if problems:
             ctx.violation('call %d of a history on one template object: %s'
                           % (i + 1, '; '.join(problems)), {'part': 'H', 'hist': hist},
-                          key='H_%s_%d' % ('-'.join(sorted(step['call'])) or 'none', i),
+                          key='H_%s_%d' % ('-'.join(sorted(step['call'])) or 'none', i) + key_suffix(sp, syntax),
                           detail={'source': sess.src, 'step': i,
                                   'expected': U.segments_text(exp),
                                   'observed': short(out, 1500) if out is not None else None,
@@ -516,6 +551,11 @@ def configs_a(tier):
 
 
 # ================================================================== spelling evidence
+def key_suffix(sp, syntax):
+    """Replay files of one configuration under different spellings do not overwrite each other."""
+    return ('_' + STYLES[sp] if sp else '') + ('_' + syntax if syntax != 'html' else '')
+
+
 def names_evidence(ctx, part, sp, syntax, model, constructs):
     """Which binding constructs / sources had their probes compared under which spelling of
     the names and which tag syntax (the comparisons themselves are those of the part)."""
@@ -617,8 +657,9 @@ def build_nest(kinds, vk, exc=None, rec=None):
                 # outer name: whether it is hidden there is not asserted -> no probe
                 hidden = lv <= cur and any(kinds[m - 1] == 'only' for m in range(lv + 1, cur + 1))
                 if not hidden:
-                    ps.append(P('name', 'c%d' % lv))
-                    if kinds[lv - 1] == 'elif':
+                    if kinds[lv - 1] != 'xelif':
+                        ps.append(P('name', 'c%d' % lv))
+                    if kinds[lv - 1] in ('elif', 'xelif'):
                         ps.append(P('name', 'e%d' % lv))
         ps += [P('name', 'sub'), P('name', 'subn'), P('miss', 'own')]
         if exc:
@@ -662,6 +703,8 @@ def build_nest(kinds, vk, exc=None, rec=None):
                 subjects['c%d' % lv] = U.Call('c%d%s' % (lv, g), ret='falsy')
             elif k == 'elif':
                 subjects['c%d' % lv] = U.Call('c%d%s' % (lv, g), ret='falsy')
+                subjects['e%d' % lv] = U.Call('e%d%s' % (lv, g))
+            elif k == 'xelif':
                 subjects['e%d' % lv] = U.Call('e%d%s' % (lv, g))
             elif k == 'try':
                 subjects['boom%d' % lv] = U.Raiser('boom%d%s' % (lv, g), 'L%dError' % lv,
@@ -766,6 +809,9 @@ def build_nest(kinds, vk, exc=None, rec=None):
             blk = [U.If(c, [T('THEN')], body)]
         elif k == 'elif':
             blk = [U.If(c, [T('THEN')], [T('ELSE')], elifs=[('e%d' % lv, body)])]
+        elif k == 'xelif':
+            # the first condition of the block is an expression, the taken one a name
+            blk = [U.If(U.Lit(0), [T('THEN')], [T('ELSE')], elifs=[('e%d' % lv, body)])]
         elif k == 'unless':
             blk = [U.Unless(c, body)]
         elif k == 'try':
@@ -830,7 +876,7 @@ def run_b(ctx, kinds, vk, bs, exc=None, sp=0, syntax='html'):
             out = t()
     except Exception as e:
         ctx.violation('render raised %s: %s' % (type(e).__name__, short(str(e), 160)), case,
-                      key='B_raise_%s_%s_%s_%s' % ('-'.join(kinds), vk, bs, xk),
+                      key='B_raise_%s_%s_%s_%s' % ('-'.join(kinds), vk, bs, xk) + key_suffix(sp, syntax),
                       detail={'source': src, 'expected': U.segments_text(exp)})
         return
     ctx.count('B:renders')
@@ -857,7 +903,7 @@ def run_b(ctx, kinds, vk, bs, exc=None, sp=0, syntax='html'):
         names_evidence(ctx, 'B', sp, syntax, model, list(kinds) + ['src:' + bs, 'sub-template defaults'])
     if problems:
         ctx.violation('; '.join(problems), case,
-                      key='B_%s_%s_%s_%s' % ('-'.join(kinds), vk, bs, xk),
+                      key='B_%s_%s_%s_%s' % ('-'.join(kinds), vk, bs, xk) + key_suffix(sp, syntax),
                       detail={'source': src, 'expected': U.segments_text(exp),
                               'observed': short(out, 3000), 'expected_calls': model.trace[:60],
                               'observed_calls': rec.calls()[:60]})
@@ -929,7 +975,7 @@ def run_r(ctx, kinds, vk, bs, rec):
     rz = U.Realizer(rcd, C['HTML'], spell, syntax)
     src = U.to_dtml(ast, syntax, spell)
     self_src = U.to_dtml(base['walk'].ast, syntax, spell)
-    key = 'R_%s_%s_%s_%s_%s' % ('-'.join(kinds), vk, bs, rec['driver'], rec['route'])
+    key = 'R_%s_%s_%s_%s_%s' % ('-'.join(kinds), vk, bs, rec['driver'], rec['route']) + key_suffix(sp, syntax)
     rb = rz.real_scope(base)
     rl = rz.real_scope(loser) if loser else None
     if top_self:
@@ -1345,9 +1391,10 @@ def finish(agg):
     return {'inconclusive': inc,
             'coverage': {'exhaustive': True,
                          'explanation': 'exhaustive: 127 subsets x 3^|S| kind assignments (16383), '
-                                        'falsy winners, S1,S2,S1 call histories, all nests of 12 block kinds to depth %d x 3 '
+                                        'falsy winners, S1,S2,S1 call histories, all nests of 14 block kinds to depth %d x 3 '
                                         'value kinds x exception modes, every block kind / pair of kinds re-entered by a '
-                                        'template invoking itself; seeded: mixed 8-kind assignments, long histories, '
+                                        'template invoking itself; every source / block kind under 7 spellings of the '
+                                        'names and 3 tag syntaxes; seeded: mixed 8-kind assignments, long histories, '
                                         'self-invoking nests over seeded trees' % maxd,
                          'subsets_rendered': len(subsets),
                          'nest_kinds': NEST_KINDS, 'design_kinds': DESIGN_KINDS}}
@@ -1362,10 +1409,12 @@ ANCHOR_LABELS = [('String.__call__', None), ('TemplateDict.getitem', None),
 def replay(ctx, rep):
     c = rep['case']
     if c['part'] == 'A':
-        run_a(ctx, c['mask'], tuple(c['kinds']), c['pad'], c['variant'], c['cls'], 'replay')
+        run_a(ctx, c['mask'], tuple(c['kinds']), c['pad'], c['variant'], c['cls'], 'replay',
+              c.get('sp', 0), c.get('syntax', 'html'))
     elif c['part'] == 'H':
         run_h(ctx, c['hist'])
     elif c['part'] == 'R':
         run_r(ctx, tuple(c['kinds']), c['vk'], c['bs'], c['rec'])
     else:
-        run_b(ctx, tuple(c['kinds']), c['vk'], c['bs'], tuple(c['exc']) if c.get('exc') else None)
+        run_b(ctx, tuple(c['kinds']), c['vk'], c['bs'], tuple(c['exc']) if c.get('exc') else None,
+              c.get('sp', 0), c.get('syntax', 'html'))
